@@ -514,8 +514,8 @@ func aggRunCase(t []string) string {
 }
 
 // aggPicks reconstructs the order in which the scan popped queue items: the callbacks are
-// observed directly; the not-ready items it popped are those whose retry counter changed or
-// that vanished without a callback. They are merged by their deadline before the scan
+// observed directly; the not-ready items it popped are those whose retry counter or
+// deadlines changed or that vanished without a callback. They are merged by their deadline before the scan
 // (not-ready first among equal deadlines, callbacks keeping their observed order); the model
 // accepts the sequence only if every pick was a minimal due item when it was taken.
 func aggPicks(pre, post intermediate.VerifSnap, cbs []int) []int {
@@ -526,12 +526,18 @@ func aggPicks(pre, post intermediate.VerifSnap, cbs []int) []int {
 		ord   int
 	}
 	dl := map[int]int64{}
+	// a not-ready item is also known to have been popped when its deadlines were re-armed
+	preQ, postQ := map[int][2]int64{}, map[int][2]int64{}
 	for _, s := range pre.Queue {
 		a, i := int64(s.Active.Sub(aggEpoch)), int64(s.Inactive.Sub(aggEpoch))
+		preQ[aggKeyID(s.Key)] = [2]int64{a, i}
 		if i < a {
 			a = i
 		}
 		dl[aggKeyID(s.Key)] = a
+	}
+	for _, s := range post.Queue {
+		postQ[aggKeyID(s.Key)] = [2]int64{int64(s.Active.Sub(aggEpoch)), int64(s.Inactive.Sub(aggEpoch))}
 	}
 	postF := map[int]intermediate.VerifFlow{}
 	for _, f := range post.Flows {
@@ -544,7 +550,7 @@ func aggPicks(pre, post intermediate.VerifSnap, cbs []int) []int {
 			continue
 		}
 		pf, ok := postF[k]
-		if !ok || pf.Retries != f.Retries {
+		if !ok || pf.Retries != f.Retries || postQ[k] != preQ[k] {
 			es = append(es, ent{k, dl[k], false, k})
 		}
 	}
